@@ -2,7 +2,9 @@
 (* Mechanism T for S3 (batch).  All strings are code-point sequences.
    {op:"list", api, site, vol|y,m,d, max, keys, lms, ids, idlms, err, panic, req_path, req_prefix, req_max}
         keys/lms = the bucket content (any order); ids/idlms = what the wrapper returned
-   {op:"get", api, key, status, out, data_equal, lm_equal, id_equal, panic, req_path, want_path} *)
+   {op:"get", api, key, status, out, data_equal, lm_equal, id_equal, panic, req_path, want_path, frame, cut}
+        frame = size of the transport frames the body was written in (0 = at once); cut = body bytes sent before the
+        connection was closed (-1 = all of them) *)
 EXTENDS S3, Json, IOUtils
 Rec == ndJsonDeserialize(IOEnv.TRACE)
 Batch == 64
@@ -21,7 +23,9 @@ CheckList(e, i) ==
        /\ IF e.req_prefix = prefix THEN TRUE ELSE Bad("C17/list/request_prefix", i)
        /\ IF e.api = "archive" \/ e.req_max = e.max THEN TRUE ELSE Bad("C17/list/request_max_keys", i)
 CheckGet(e, i) ==
-    /\ IF e.out = GetOutcome(e.status) THEN TRUE ELSE Bad("C17/get/status_mapping", i)
+    /\ IF e.out = GetOutcomeT(e.status, e.cut < 0) THEN TRUE
+       ELSE IF e.cut >= 0 /\ e.status = 200 THEN (IF e.out # "ok" \/ e.data_equal THEN TRUE ELSE Bad("C17/get/truncated_transfer_accepted", i))
+       ELSE Bad("C17/get/status_mapping", i)
     /\ IF e.status # 200 \/ e.out # "ok" \/ (e.data_equal /\ e.id_equal) THEN TRUE ELSE Bad("C17/get/content", i)
     /\ IF e.status # 200 \/ e.out # "ok" \/ e.lm_equal THEN TRUE ELSE Bad("C17/get/last_modified", i)
     /\ IF e.req_path = e.want_path THEN TRUE ELSE Bad("C17/get/request_key", i)
